@@ -10,3 +10,18 @@ func VerifDecimalRaw(d Decimal) int64 { return d.value }
 
 // VerifDecimalFromRaw builds a decimal from raw ten-thousandths.
 func VerifDecimalFromRaw(raw int64) Decimal { return Decimal{value: raw} }
+
+// VerifPatternComp is one component of a Pattern: optional leading wildcard, then a literal.
+type VerifPatternComp struct {
+	Wildcard bool
+	Literal  string
+}
+
+// VerifPatternComps exposes the components of a pattern.
+func VerifPatternComps(p Pattern) []VerifPatternComp {
+	res := make([]VerifPatternComp, len(p.comps))
+	for i, c := range p.comps {
+		res[i] = VerifPatternComp{Wildcard: c.Wildcard, Literal: c.Literal}
+	}
+	return res
+}
